@@ -214,7 +214,10 @@ class NodeLib(LibBase):
         from contracts.stores import dump_state
         old = getattr(ob.ctx, "old", None)
         try:
-            return {"entry": dump_state(self, old, m) if old is not None else None, "exit": dump_state(self, st, m)}
+            from contracts.stores import dump_value
+            args = getattr(ob.ctx, "args", None) or {}
+            return {"entry": dump_state(self, old, m) if old is not None else None, "exit": dump_state(self, st, m),
+                    "args": {k: dump_value(v, m) for k, v in args.items() if isinstance(v, V.Value)}}
         except Exception as e:
             return {"error": repr(e)}
 
